@@ -18,7 +18,15 @@ import (
 )
 
 // OneShot is what a fresh process computes for (profile file, data file): generated Rego and the report with a fixed clock.
-func OneShot(profilePath, dataPath string) {
+// c06Configs: report configurations that share / differ in each of their three fields.
+var c06Configs = []config.ReportConfiguration{
+	config.DefaultReportConfiguration(),
+	{IncludeReportCreationTime: true, ReportSchemaIri: "file:///dialects/validation-report.yaml", LexicalSchemaIri: "file:///dialects/lexical-2.0.yaml"},
+	{IncludeReportCreationTime: false, ReportSchemaIri: "file:///other/report.yaml", LexicalSchemaIri: "file:///dialects/lexical.yaml"},
+	{IncludeReportCreationTime: true, ReportSchemaIri: "file:///other/report.yaml", LexicalSchemaIri: "file:///other/lexical.yaml"},
+}
+
+func OneShot(profilePath, dataPath string, cfg int) {
 	p, _ := os.ReadFile(profilePath)
 	d, _ := os.ReadFile(dataPath)
 	out := map[string]string{}
@@ -28,7 +36,7 @@ func OneShot(profilePath, dataPath string) {
 	} else {
 		out["rego"] = unit.Code
 	}
-	rep, err := pkg.ValidateWithConfiguration(string(p), string(d), false, nil, clockA, config.DefaultReportConfiguration())
+	rep, err := pkg.ValidateWithConfiguration(string(p), string(d), false, nil, clockA, c06Configs[cfg%len(c06Configs)])
 	if err != nil {
 		out["report"] = "error: " + err.Error()
 	} else {
@@ -130,6 +138,29 @@ validations:
         ex.name:
           exactCount: 1
 `
+	// more validations than any fixture has (a translator that treats large profiles differently must still be deterministic)
+	{
+		var b strings.Builder
+		b.WriteString("#%Validation Profile 1.0\nprofile: Many validations\nprefixes:\n  ex: http://example.org/ns#\n  zz: http://example.org/zz#\n")
+		nv := 48
+		for li, l := range []string{"violation", "warning", "info"} {
+			b.WriteString(l + ":\n")
+			for i := li; i < nv; i += 3 {
+				fmt.Fprintf(&b, "  - v%d\n", i)
+			}
+		}
+		b.WriteString("validations:\n")
+		bodies := []string{
+			"    propertyConstraints:\n      ex.name:\n        minCount: 1\n        pattern: ^a\n",
+			"    propertyConstraints:\n      ex.child / ex.name | zz.other:\n        maxCount: 2\n      ex.child:\n        nested:\n          propertyConstraints:\n            ex.name:\n              minCount: 1\n",
+			"    or:\n      - propertyConstraints:\n          ex.name:\n            in: [ a, b ]\n      - not:\n          propertyConstraints:\n            ex.child:\n              atLeast:\n                count: 1\n                validation:\n                  propertyConstraints:\n                    zz.other:\n                      minCount: 1\n",
+			"    if:\n      propertyConstraints:\n        ex.name:\n          minLength: 2\n    then:\n      propertyConstraints:\n        ex.child ^:\n          maxCount: 0\n",
+		}
+		for i := 0; i < nv; i++ {
+			fmt.Fprintf(&b, "  v%d:\n    targetClass: ex.Thing\n    message: m%d\n%s", i, i, bodies[i%len(bodies)])
+		}
+		ps["many-validations"] = b.String()
+	}
 	// repository fixtures
 	for _, rel := range []string{"test/data/integration/profile1/profile.yaml", "test/data/production/best-practices/profile.yaml", "test/data/basic/profile2.yaml"} {
 		if b, err := os.ReadFile(filepath.Join(e.Repo, rel)); err == nil {
@@ -141,7 +172,7 @@ validations:
 
 func C06(e *core.Env) {
 	res := e.Res
-	res.Rule = "cases = (profile, data): generated Rego and report (fixed clock) computed by N fresh processes (quick 10, thorough 40), by repeated calls in one process, and by 8 goroutines at once; all bytes must be identical; profiles: several quantified constraints and properties per propertyConstraints map, several prefixes incl. a redeclared built-in one, deep nesting, repository fixtures; data: failing documents with lexical source maps, with TWO source-information nodes, with several results per level; " +
+	res.Rule = "cases = (profile, data): generated Rego and report (fixed clock) computed by N fresh processes (quick 10, thorough 40), by repeated calls in one process, and by 8 goroutines at once; all bytes must be identical; profiles: several quantified constraints and properties per propertyConstraints map, several prefixes incl. a redeclared built-in one, deep nesting, 48 validations, repository fixtures; a history of 10 validations cycling through 4 report configurations (sharing / differing in each field) against the fresh-process report of each configuration; data: failing documents with lexical source maps, with TWO source-information nodes, with several results per level; " +
 		"non-trivial = the report has results; distinct by (profile, data, mode)"
 	self, _ := os.Executable()
 	g := RandomEdgeGraph(e.Rand, 5, []string{"a", "b", "c"}, 0.4)
@@ -264,6 +295,39 @@ func C06(e *core.Env) {
 			if pname == "many-quantified" && dname == "pool-bad" {
 				res.Sample(map[string]any{"profile": pname, "data": dname, "fresh_processes": n, "rego_sha": sha(first.Rego), "report_sha": sha(first.Report)})
 			}
+		}
+	}
+	// configuration histories: the report for (inputs, configuration) made after other configurations were used equals
+	// the one a fresh process makes for that configuration
+	{
+		p, d := PoolProfileLevels, thingData
+		pf := filepath.Join(e.Scratch, "c06p.yaml")
+		df := filepath.Join(e.Scratch, "c06d.jsonld")
+		os.WriteFile(pf, []byte(p), 0o644)
+		os.WriteFile(df, []byte(d), 0o644)
+		freshOf := map[int]string{}
+		for k := range c06Configs {
+			out, err := exec.Command(self, "oneshot", pf, df, fmt.Sprint(k)).Output()
+			var m map[string]string
+			if err != nil || json.Unmarshal(out, &m) != nil {
+				res.Violate("harness-error", fmt.Sprintf("fresh process failed: %v", err), map[string]any{"no_failing_input_found": true, "broken": "oneshot subprocess"})
+				continue
+			}
+			freshOf[k] = m["report"]
+		}
+		order := []int{0, 1, 0, 3, 2, 1, 3, 0, 2, 1}
+		for step, k := range order {
+			o, err := pkg.ValidateWithConfiguration(p, d, false, nil, clockA, c06Configs[k])
+			if err != nil {
+				o = "error: " + err.Error()
+			}
+			if fr, ok := freshOf[k]; ok && o != fr {
+				res.Violate("impl-violates-property", fmt.Sprintf("the report made with configuration %d after other configurations were used differs from a fresh process's", k),
+					map[string]any{"profile": p, "data": d, "configurations": fmt.Sprintf("%+v", c06Configs), "history_of_configuration_indices": order[:step+1], "first_diff_line": firstDiff(fr, o), "mode": "configuration history"})
+				break
+			}
+			res.Case(fmt.Sprintf("config-history|%d|%d", step, k), strings.Contains(o, "\"result\""))
+			res.Count("stream=configuration-history")
 		}
 	}
 	res.Unmodelled = []string{"determinism of yaml.v3, json-gold (blank-node naming, sorted keys), OPA (set ordering) and encoding/json (sorted keys) is measured across processes, not proved",
